@@ -412,7 +412,8 @@ def run_cli(names, pairs, cfg, workdir):
 
 def run_event(tid, grp, entry, names, pairs, acc, cfg, obs, extra=None):
     e = {'ev': 'run', 'tid': tid, 'grp': grp, 'entry': entry, 'mates': cfg['mates'], 'hasRej': cfg['hasRej'],
-         'percell': cfg['percell'], 'maxpairs': cfg['maxpairs'], 'strategies': names, 'lib': cfg['lib'], 'N': len(pairs),
+         'percell': cfg['percell'], 'maxpairs': cfg['maxpairs'], 'gz': bool(cfg.get('gz', True)), 'fh': int(cfg.get('fh', 500)),
+         'strategies': names, 'lib': cfg['lib'], 'N': len(pairs),
          'classes': [[p['hdr'], p['content']] for p in pairs],
          'inp': [{'id': p['id'], 'h': [r['h'] for r in p['m']], 'm': [{'seq': r['seq'], 'qual': r['qual']} for r in p['m']]}
                  for p in pairs],
@@ -614,8 +615,8 @@ def replay(rec, case_path, workdir):
     pairs = [{'id': p['id'], 'hdr': c[0], 'content': c[1],
               'm': [{'h': h, 'seq': m['seq'], 'plus': '+', 'qual': m['qual']} for h, m in zip(p['h'], p['m'])]}
              for p, c in zip(ev['inp'], ev['classes'])]
-    cfgs = [{'lib': e['lib'], 'mates': e['mates'], 'gz': True, 'hasRej': e['hasRej'], 'percell': e['percell'],
-             'maxpairs': e['maxpairs']} for e in evs]
+    cfgs = [{'lib': e['lib'], 'mates': e['mates'], 'gz': e.get('gz', True), 'fh': e.get('fh', 500), 'hasRej': e['hasRej'],
+             'percell': e['percell'], 'maxpairs': e['maxpairs']} for e in evs]
     rec.group(loader, ev['strategies'], pairs, cfgs, workdir, entry=ev.get('entry', 'api'),
               extra={'scn': ev['scn']} if 'scn' in ev else None)
 
